@@ -2,7 +2,7 @@
 
 use super::{Expression, Spanned};
 use crate::{
-    expression::Identifier,
+    expression::{Identifier, literal::LiteralKind},
     visitor::{VisitWith, Visitor, VisitorMut},
 };
 use boa_interner::{Interner, ToInternedString};
@@ -72,7 +72,27 @@ impl PropertyName {
 impl ToInternedString for PropertyName {
     fn to_interned_string(&self, interner: &Interner) -> String {
         match self {
-            Self::Literal(key) => interner.resolve_expect(key.sym()).to_string(),
+            Self::Literal(key) => {
+                // Only identifier names and canonical integers read back as the same key when
+                // they are printed bare: any other key (`"a.b"`, `"-1"`, `""`) is a string literal.
+                let name = interner.resolve_expect(key.sym());
+                let bare = name.utf8().is_some_and(|name| {
+                    let mut chars = name.chars();
+                    match chars.next() {
+                        Some('0') => name.len() == 1,
+                        Some('1'..='9') => name.len() <= 15 && chars.all(|c| c.is_ascii_digit()),
+                        Some(c) if c.is_ascii_alphabetic() || c == '_' || c == '$' => {
+                            chars.all(|c| c.is_ascii_alphanumeric() || c == '_' || c == '$')
+                        }
+                        _ => false,
+                    }
+                });
+                if bare {
+                    name.to_string()
+                } else {
+                    LiteralKind::String(key.sym()).to_interned_string(interner)
+                }
+            }
             Self::Computed(key) => format!("[{}]", key.to_interned_string(interner)),
         }
     }
